@@ -396,12 +396,18 @@ func runC09(c *Ctx) {
 	// lives under its MAC entry's row lock) happens with some lock held, in a constructor, on a freshly made object - or is
 	// one of the sites listed here with the reason why no lock is needed. A new field written from a function that several
 	// goroutines run (a scratch buffer shared by the spoof loops, say) has no entry in the table and lands here.
-	r.Rule("unlisted-writes", "writes to fields of lock-bearing structs outside the guarded-by table hold a lock or are listed single-writer sites", 3)
+	r.Rule("unlisted-writes", "writes to fields of lock-bearing structs and to package-level variables outside the guarded-by table hold a lock or are listed single-writer sites", 8)
 	{
 		allowed := map[string]string{
 			"dhcp4_spoofer.Handler.mode in (*dhcp4_spoofer.Handler).SetMode": "configuration call, not part of the concurrent API C09 lists",
 			"packet.MACEntry.HostList in (*packet.MACEntry).link":            "helper without callers; the guarded-by rule covers it through its caller's locks as soon as it has one",
 			"packet.Session.Statistics in (*packet.Session).Parse":           "written by the packet loop only (the one goroutine that runs Parse)",
+			// package-level variables
+			"global dns_naming.sequence in (*dns_naming.DNSHandler).SendNBNSNodeStatus": "NBNS query counter: the send API is not part of the concurrent API C09 lists",
+			"global dns_naming.sequence in (*dns_naming.DNSHandler).SendNBNSQuery":      "NBNS query counter: the send API is not part of the concurrent API C09 lists",
+			"global packet.manufacturersMap in packet.init#1":                           "package initialisation",
+			"global packet.stpCount in packet.Process8023Frame":                         "log throttling, written by the packet loop only",
+			"global packet.stpNextLog in packet.Process8023Frame":                       "log throttling, written by the packet loop only",
 		}
 		seenAllowed := map[string]bool{}
 		anU := locks.Analyse(c.P, c.P.LibFunctions(), isConstructor)
